@@ -9,6 +9,7 @@ enum { O_CTX_REG = 1, O_CTX_DEREG, O_FINALIZE, O_DISPATCH, O_QUIT, O_SET_TICK,
        O_SRC_REG, O_SRC_DEREG,
        O_BECOME, O_UNBECOME, O_BATCH_SIZE, O_BATCH_TMO, O_BUCKET, O_UNSTASH,
        O_ARM, O_READY, O_ADVANCE, O_INJECT, O_RELEASE, O_CTXCALL, O_MAX };
+static void audit_srclen(int s, const char *when);
 enum { A_NONE, A_STOP, A_DEREG, A_PAUSE, A_START, A_RESUME, A_TELL, A_PUB, A_QUIT, A_SUB, A_UNSUB, A_STASH, A_UNSTASH, A_BECOME, A_UNBECOME,
        A_RETAIN, A_ERRNO, A_CTXCALL, A_PILL, A_BCAST, A_MAX };
 static const char *AN[] = { "none", "stop", "deregister", "pause", "start", "resume", "tell", "publish", "quit", "subscribe", "unsubscribe", "stash", "unstash", "become", "unbecome",
@@ -49,30 +50,6 @@ static void check_unchanged(const snap_t *a, const char *what, const char *sigta
 }
 #define REFUSED(rc, what, sig) do { if ((rc) >= 0) vfail("ST.refuse", sig, "%s returned %d, expected a negative code", what, (int)(rc)); check_unchanged(&sn, what, sig); } while (0)
 #define MUST_OK(rc, what, sig) do { if ((rc) != 0) vfail("ST.accept", sig, "%s returned %d, expected 0", what, (int)(rc)); } while (0)
-
-/* ---- monitor timers ---- */
-typedef struct { int used, slot, src /* index in MD[slot].src, -1 batch, -2 bucket, -3 ctx tick */, armed; uint64_t period, next; int oneshot; } mtimer_t;
-static mtimer_t MT[24];
-static mtimer_t *mt_find(int slot, int src) { for (int i = 0; i < 24; i++) if (MT[i].used && MT[i].slot == slot && MT[i].src == src) return &MT[i]; return NULL; }
-static void mt_set(int slot, int src, uint64_t period, int oneshot, int arm) {
-    mtimer_t *t = mt_find(slot, src);
-    if (!t) for (int i = 0; i < 24; i++) if (!MT[i].used) { t = &MT[i]; break; }
-    if (!t) vfail("INTERNAL", "INTERNAL", "monitor timers exhausted");
-    *t = (mtimer_t){ 1, slot, src, arm, period, shim_now_ns + period, oneshot };
-}
-static void mt_del(int slot, int src) { mtimer_t *t = mt_find(slot, src); if (t) t->used = 0; }
-static void mt_arm_all(int slot, int arm) { for (int i = 0; i < 24; i++) if (MT[i].used && MT[i].slot == slot) { MT[i].armed = arm; MT[i].next = shim_now_ns + MT[i].period; } }
-static void mt_del_all(int slot) { for (int i = 0; i < 24; i++) if (MT[i].used && MT[i].slot == slot) MT[i].used = 0; }
-static int tick_owed;
-static void mt_advance(void) {
-    for (int i = 0; i < 24; i++) { mtimer_t *t = &MT[i];
-        if (!t->used || !t->armed || t->next > shim_now_ns) continue;
-        if (t->oneshot) t->armed = 0; else t->next += (1 + (shim_now_ns - t->next) / t->period) * t->period;
-        if (t->src >= 0) MD[t->slot].src[t->src].fired = 1;
-        else if (t->src == -1) MD[t->slot].batch_fired = 1;
-        else if (t->src == -3) tick_owed = 1;
-    }
-}
 
 static void do_api(op_t op);
 
@@ -140,6 +117,7 @@ static void audit(const char *when) {
         if (!nm || strcmp(nm, MD[s].name)) vfail("ST.zombie", "ST.zombie|name", "name query on %s returned %s", MD[s].name, nm ? nm : "NULL");
         if (!m_mod_is(h, want)) vfail("ST.edge", "ST.edge|is", "m_mod_is disagrees with m_mod_state for %s", MD[s].name);
     }
+    if (ON(R_SR)) for (int s = 0; s < NM; s++) audit_srclen(s, when);
     if (ctx_hidden()) return;
     ssize_t len = m_ctx_len();
     if (CX.exists) {
